@@ -41,6 +41,35 @@ def judged_queries(ctx, h, rng, methods, n, sig):
     return True
 
 
+def copy_probe(ctx, h, rng, methods, n, sig):
+    """The whole world is copied -- copy.deepcopy, or a pickle round trip -- at whatever moment the history has reached (index
+    events may be pending, indexes may or may not have been built), and lookups are issued on the COPY and judged by a fresh scan of
+    the copy: a copy of an IR is an IR, "after any history" includes the history its original went through.  The copy is then
+    dropped; the original continues (and must not have been disturbed: it is queried next)."""
+    how = rng.choice(["deepcopy", "deepcopy", "pickle"])
+    w2 = world.copy_world(h.w, how, protocol=rng.choice([2, 4, 5]))
+    if w2 is None and how == "pickle":
+        ctx.count("copy_probe:pickle-unsupported")
+        how = "deepcopy"
+        w2 = world.copy_world(h.w, how)
+    if w2 is None:
+        ctx.count("copy_probe:unsupported")
+        return True
+    ctx.count("copy_probe:" + how)
+    for _ in range(n):
+        r = h.op_query(methods, dry=True)
+        if r is None:
+            continue
+        it = r[0]
+        rep = w2.run(it)
+        bad = world.oracle_query(w2, it, rep)
+        if bad:
+            ctx.add("oracle", "%s:copy:m%d" % (sig, it[2]), "lookup %s on a %s of the world taken at this point of the history: %s" % (it, "deep copy" if how == "deepcopy" else "pickle round trip", "; ".join(bad[:2])),
+                    {"items": h.items, "copy": how, "query": it, "problems": bad[:6]})
+            return False
+    return True
+
+
 def burst(h, rng):
     """a run of edits concentrated on ONE section (or one byte interval) with no lookup in between: many index events for few
     members, members joining with and without an address / blocks joining in bulk -- the states in which the choice between
@@ -340,6 +369,9 @@ def lookup_history(ctx, g, rng, length, weights, methods, sig, per_step=3, pool=
                 return h
         else:
             edit_step(h, rng, weights)
+        if rng.random() < 0.12:
+            if not copy_probe(ctx, h, rng, methods, per_step + 2, sig):
+                return h
         if rng.random() < freq:
             if not judged_queries(ctx, h, rng, methods, per_step, sig):
                 return h
@@ -579,3 +611,92 @@ def _ident(x):
     if isinstance(x, tuple):
         return tuple(id(y) if not isinstance(y, int) else y for y in x)
     return id(x)
+
+
+def failed_bulk_blocks(ctx, g, rng, n, sig):
+    """Error paths of the bulk entry points of `interval.blocks` (update with several iterables, |=, the constructor argument): the
+    iterable raises after having yielded some blocks (new ones, blocks of another interval), or holds something unhashable behind
+    them.  Whatever the failed call left behind must be CONSISTENT -- a block is in an interval's set exactly if it names that
+    interval -- and after offsets and sizes of the blocks named in the failed call were edited (their descriptors notify whatever
+    parent they name) every block lookup at every scope is the fresh scan of the sets.  The interval's index is built beforehand and
+    holds more blocks than events are queued, so that the events are replayed, not the index rebuilt."""
+    from common import exc_name
+
+    class Boom(Exception):
+        pass
+    A = 0x1000
+    for rd in range(n):
+        ir = g.IR()
+        m = g.Module(name="m", ir=ir)
+        sec = g.Section(name="s", module=m)
+        bi = g.ByteInterval(address=A, size=128, section=sec)
+        bi2 = g.ByteInterval(address=A + 256, size=128, section=sec)
+        own = [(g.CodeBlock if k % 2 else g.DataBlock)(offset=8 * k, size=4, byte_interval=bi) for k in range(rng.choice([4, 6, 9]))]
+        other = [g.DataBlock(offset=8 * k, size=4, byte_interval=bi2) for k in range(3)]
+        free = [g.CodeBlock(offset=64 + 8 * k, size=4) for k in range(3)]
+        everything = own + other + free
+        scopes = [("interval", bi), ("the other interval", bi2), ("section", sec), ("module", m), ("IR", ir)]
+        whole = range(A - 8, A + 512)
+        for _, sc in scopes:
+            list(sc.byte_blocks_on(whole))          # indexes built
+        named = rng.sample(other + free, rng.choice([1, 2, 3]))
+        j = rng.randrange(1, len(named) + 1)
+        kind = rng.choice(["gen-raises", "unhashable-behind", "second-iterable-raises"])
+        entry = rng.choice(["update", "ior", "ctor"])
+
+        def gen():
+            for x in named[:j]:
+                yield x
+            raise Boom()
+        if kind == "gen-raises":
+            args = [gen()]
+        elif kind == "unhashable-behind":
+            args = [named[:j] + [[]]]
+        else:
+            args = [named[:j], gen()]
+        desc = "%s(%s, %d blocks named before the failure)" % (entry, kind, j)
+        try:
+            if entry == "update":
+                bi.blocks.update(*args)
+            elif entry == "ior":
+                s_ = bi.blocks
+                s_ |= args[0]
+            else:
+                g.ByteInterval(address=A + 1024, size=64, blocks=args[0])
+            raised = None
+        except Exception as e:  # noqa: BLE001
+            raised = exc_name(g, e)
+        ctx.count("failed_bulk_blocks:%s:%s:%s" % (entry, kind, "raised" if raised else "accepted"))
+        ctx.case("failed-bulk-blocks:%d:%s" % (rd, desc), True)
+
+        def consistent():
+            for x in everything:
+                p = x.byte_interval
+                holders = [o for o in (bi, bi2) if x in o.blocks]
+                if p is not None and p not in (bi, bi2):
+                    continue                      # (claimed by the interval the failed constructor was building: not reachable)
+                if holders != ([p] if p is not None else []):
+                    return "a block names %s as its interval but is held by %s" % (
+                        "no interval" if p is None else ("the interval" if p is bi else "the other interval"),
+                        [("the interval" if o is bi else "the other interval") for o in holders] or "none")
+            return None
+        bad = consistent()
+        if bad:
+            ctx.add("oracle", sig + ":inconsistent", "after the failed %s: %s" % (desc, bad), {"call": desc, "raised": raised})
+            continue
+        # edit the blocks the failed call named (and one own block), then look up everywhere
+        for x in named + [rng.choice(own)]:
+            x.offset = rng.choice([2, 10, 18, 26, 100])
+            x.size = rng.choice([1, 4, 6])
+        for nm, sc in scopes:
+            if sc is bi or sc is bi2:
+                want = sorted(id(b) for b in sc.blocks if b.size > 0)
+            else:
+                want = sorted(id(b) for o in (bi, bi2) for b in o.blocks if b.size > 0 and o.address is not None and o.address + b.offset < o.address + o.size)
+            got_l = [id(b) for b in sc.byte_blocks_on(whole)]
+            got = sorted(got_l)
+            # (section scope and above may omit what lies outside the interval's extent; none here)
+            if got != want:
+                ctx.add("oracle", sig + ":lookup", "after the failed %s and offset / size edits of the blocks it named, %s.byte_blocks_on(everything) yields %d blocks (%d distinct), a scan of the sets gives %d"
+                        % (desc, nm, len(got_l), len(set(got_l)), len(want)), {"call": desc, "raised": raised, "scope": nm})
+                break
